@@ -78,6 +78,10 @@ func init() {
 				}
 			}
 		}
+		// Scaler in IEEE float32 arithmetic: exactly (x - offset) * scale, each operation rounded once
+		p.Jobs = append(p.Jobs,
+			Job{Harness: "opset13.H_C04_scaler", Case: map[string]interface{}{"shape": []int{2}, "n": 2, "ns": 2, "ieee": true}},
+			Job{Harness: "opset13.H_C04_scaler", Case: map[string]interface{}{"shape": []int{1, 2}, "n": 1, "ns": 2, "ieee": true}})
 		p.Bounds = []string{
 			"exact real arithmetic (float elements as reals): every element, alpha, beta, coefficient, intercept, offset and scale is a solver variable; equality with the reference is an identity over the reals (nonlinear real arithmetic)",
 			"MatMul: 33 (37 thorough) operand shape pairs of rank 1..6 with extents {1,2,3}, both orders: vector.vector, vector.matrix, matrix.vector, stacks with broadcastable and non-broadcastable batch shapes, inner-dimension mismatches; each case applies the same operator instance to the same tensors twice",
